@@ -209,5 +209,7 @@ def run(ctx):
                 what = "action" if "UriAction" in txt or "action" in txt else "text"
                 ctx.violation("C11.display", f"C11.display:{ty}:raw-{what}", w.where(fdx, c["line"]),
                               f"{ty}::fmt writes {what} text into the URI without encoding it (a custom action containing '&', '#', '%' or '=' re-parses differently)")
+    from . import controls
+    controls.sites(ctx, "C11.sites")
     ctx.assumptions += ["percent-encoding / form_urlencoded / url crates behave as documented", "round-trip equality for all values is not decided"]
     ctx.samples += [{"id": "@a%41:example.org", "needs": "'%' in the encode set, otherwise it parses back as @aA:example.org"}]
